@@ -150,7 +150,17 @@ def check(d, S, timeout_ms=10000):
     try:
         r = m.eval_expr(gen.build(d), {})
     except _Timeout:
-        return ('failed', 'terminates', 'eval_expr did not return within 5 s', dict(wit, **{'raise': True}))
+        # a second, patient attempt on a fresh machine and tree before non-termination is claimed
+        m = make_machine(S)
+        signal.alarm(common.patience(60))
+        try:
+            r = m.eval_expr(gen.build(d), {})
+            signal.alarm(0)
+        except _Timeout:
+            return ('failed', 'terminates', 'eval_expr did not return within %d s' % common.patience(60), dict(wit, **{'raise': True}))
+        except Exception as ex:
+            signal.alarm(0)
+            return ('failed', 'noraise', 'eval_expr raised %s: %s' % (type(ex).__name__, str(ex)[:100]), dict(wit, **{'raise': True}))
     except Exception as ex:
         return ('failed', 'noraise', 'eval_expr raised %s: %s' % (type(ex).__name__, str(ex)[:100]), dict(wit, **{'raise': True}))
     finally:
